@@ -16,9 +16,10 @@ LEVEL_TEXT = ("Self-differential testing: overloaded call vs direct call to each
 LEVEL_NOTE = ("Trusted: the direct calls as reference (that is the statement's own definition); each "
               "variant reports its index, so the selected variant is observed, not inferred.")
 TECHNIQUE = "self-differential execution (overloaded call vs first accepted direct call) with variant-index event monitor"
-RULE = ("overload sets of 2-5 defined variants with parameter lists over int/nat/float/bool/array[int,2]"
-        "/generic T (arity 0-3) and return types int/float/bool/None; 6 argument lists per set from "
-        "literals and typed variables; positions: synthesis, annotated target, argument of a typed "
+RULE = ("overload sets of 2-5 defined variants with parameter lists over int/nat/float/bool/arrays/tuples"
+        "/generic T (arity 0-3) and return types int/float/bool/None; a third of the sets list an inner "
+        "overload set as one of their variants; 6 argument lists per set from literals, typed "
+        "variables, tuple/array displays and generic calls containing literals; positions: synthesis, annotated target, argument of a typed "
         "sink. distinct = (variant signatures, argument types, position)")
 FLOORS = {"call_sites_probed": 150, "expected_accept": 40, "expected_reject": 15}
 
@@ -26,6 +27,10 @@ HDR = '''from guppylang import guppy
 from guppylang.std.builtins import result, array, nat
 
 T = guppy.type_var("T")
+
+@guppy
+def idg(x: T) -> T:
+    return x
 
 @guppy
 def sink_int(x: int) -> None:
@@ -40,12 +45,19 @@ def sink_bool(x: bool) -> None:
     result("sink_bool", x)
 
 '''
-PTYPES = ["int", "nat", "float", "bool", "array[int, 2]"]
+PTYPES = ["int", "nat", "float", "bool", "array[int, 2]", "tuple[int, int]", "tuple[nat, bool]",
+          "tuple[float, bool]", "array[nat, 2]", "tuple[tuple[int, int], bool]"]
 RET = {"int": "7", "float": "2.5", "bool": "True", "None": None}
 ARGS = {
     "int": ["3", "iv"], "nat": ["nv"], "float": ["1.5", "fv"], "bool": ["True", "bv"],
-    "array[int, 2]": ["array(1, 2)"],
+    "array[int, 2]": ["array(1, 2)", "array(iv, 2)"], "array[nat, 2]": ["array(1, 2)", "array(nv, 2)"],
+    # literals nested inside displays / calls: a rejected variant must not leave its typing of them behind
+    "tuple[int, int]": ["(3, 4)", "(iv, 4)", "(idg(3), 4)"], "tuple[nat, bool]": ["(3, True)", "(nv, bv)"],
+    "tuple[float, bool]": ["(1.5, True)", "(3, True)", "(fv, bv)"],
+    "tuple[tuple[int, int], bool]": ["((3, 4), True)", "((iv, 4), bv)"],
 }
+ARGS["int"] += ["idg(3)", "-3"]
+ARGS["float"] += ["idg(1.5)"]
 PRELUDE = "    iv = 4\n    nv: nat = 5\n    fv = 0.25\n    bv = False\n"
 
 
@@ -84,7 +96,7 @@ def gen_args(rng, variants):
     for _ in range(6):
         if rng.random() < 0.7:
             params, _, generic = rng.choice(variants)
-            tys = [rng.choice(PTYPES[:4]) if p == "T" else p for p in params]
+            tys = [rng.choice(PTYPES[:4] + PTYPES[5:8]) if p == "T" else p for p in params]
             if rng.random() < 0.4 and tys:
                 j = rng.randrange(len(tys))
                 tys[j] = rng.choice(PTYPES)
@@ -110,10 +122,17 @@ def report_line(pos, k, ret_known):
     return []
 
 
-def module(variants, body_lines, with_overload):
+def module(variants, body_lines, with_overload, nest=None):
+    """nest=(a, b): variants a..b-1 form an inner overload set that is listed in their place; the
+    flattened order (and therefore the first applicable variant) is unchanged."""
     text = HDR + "".join(variant_src(i, v) for i, v in enumerate(variants))
     if with_overload:
-        text += "@guppy.overload(" + ", ".join(f"v{i}" for i in range(len(variants))) + ")\ndef comb(*args): ...\n\n"
+        names = [f"v{i}" for i in range(len(variants))]
+        if nest:
+            a, b = nest
+            text += "@guppy.overload(" + ", ".join(names[a:b]) + ")\ndef inner(*args): ...\n\n"
+            names[a:b] = ["inner"]
+        text += "@guppy.overload(" + ", ".join(names) + ")\ndef comb(*args): ...\n\n"
     text += "@guppy\ndef main() -> None:\n" + PRELUDE + "\n".join(body_lines) + "\n"
     return text
 
@@ -144,8 +163,16 @@ def run_case(ctx, rng, idx, params, tier):
 
     variants = gen_set(rng)
     arglists = gen_args(rng, variants)
+    nest = None
+    if rng.random() < 0.35 and len(variants) >= 3:
+        # an inner set needs >= 2 members and the outer set >= 2 entries
+        a = rng.randrange(len(variants) - 1)
+        b = rng.randint(a + 2, len(variants))
+        if len(variants) - (b - a) + 1 >= 2:
+            nest = (a, b)
     viols = []
-    counters = {"call_sites_probed": 0, "expected_accept": 0, "expected_reject": 0, "direct_checks": 0}
+    counters = {"call_sites_probed": 0, "expected_accept": 0, "expected_reject": 0, "direct_checks": 0,
+                "sets_with_nested_overload": 1 if nest else 0}
     direct_lines, over_lines = [], []
     cells = set()
     k = 0
@@ -162,9 +189,9 @@ def run_case(ctx, rng, idx, params, tier):
                 if ok:
                     first = i
                     break
-            ok_over, _ = accepted(ctx, module(variants, call_line("comb", srcs, pos, k), True))
+            ok_over, _ = accepted(ctx, module(variants, call_line("comb", srcs, pos, k), True, nest))
             cells.add(f"{pos}:{','.join(tys)}:{'acc' if first is not None else 'rej'}")
-            wit = {"variants": [(p, r) for p, r, _ in variants], "args": srcs, "arg_types": tys, "position": pos,
+            wit = {"variants": [(p, r) for p, r, _ in variants], "nested_set": nest, "args": srcs, "arg_types": tys, "position": pos,
                    "first_accepted_direct": first}
             if first is None:
                 counters["expected_reject"] += 1
@@ -189,7 +216,7 @@ def run_case(ctx, rng, idx, params, tier):
     if direct_lines:
         try:
             ld_d = ctx.load(module(variants, direct_lines, False), "ovl_direct")
-            ld_o = ctx.load(module(variants, over_lines, True), "ovl_over")
+            ld_o = ctx.load(module(variants, over_lines, True, nest), "ovl_over")
             out_d = ctx.emulate(ld_d.main.compile())
             out_o = ctx.emulate(ld_o.main.compile())
             counters["emulated_pairs"] = 1
@@ -204,7 +231,7 @@ def run_case(ctx, rng, idx, params, tier):
                 viols.append({"mech": "C15:overloaded-call-behaves-differently-from-direct-call",
                               "witness": {"variants": [(p, r) for p, r, _ in variants], "first_differing_site": site,
                                           "direct": sd, "overloaded": so,
-                                          "program": module(variants, over_lines, True)}})
+                                          "program": module(variants, over_lines, True, nest)}})
         except BaseException as e:
             if C.raised_in_harness(e) or isinstance(e, C.HarnessError):
                 raise
